@@ -57,7 +57,9 @@ def classify(mode, stmts):
     if ins == {'consumers'} and not dele and not upd:
         return 'createConsumer'
     if dele == {'consumers'} and not ins and not upd:
-        return 'cleanup'
+        return 'cleanup|main'      # an allocation write with nothing to write issues the same statements
+    if upd == {'consumers'} and not ins and not dele:
+        return 'updateConsumer'
     return 'main'
 
 
@@ -222,6 +224,37 @@ def consumer_gens(op):
     return []
 
 
+def named_consumers(op):
+    o = op['op']
+    if o == 'alloc_put':
+        return [op['c']['uuid']]
+    if o in ('alloc_post', 'reshape'):
+        return [c['uuid'] for c in op['cs']]
+    return []
+
+
+def new_consumer_race(start_dump, oplist):
+    """two in-flight requests name one consumer that does not exist in the start state"""
+    cnt = {}
+    for op in oplist:
+        for u in set(named_consumers(op)):
+            if u not in start_dump['consumers']:
+                cnt[u] = cnt.get(u, 0) + 1
+    return any(v >= 2 for v in cnt.values())
+
+
+def noop_trait_puts(oplist, leaf):
+    """indices of successful PUT .../traits requests whose write transaction changed nothing"""
+    out = []
+    for i, op in enumerate(oplist):
+        if op['op'] != 'rp_traits_set' or not ok(leaf['responses'][i].status if leaf['responses'][i] else None):
+            continue
+        ws = [st for (j, m, st) in leaf['trace'] if j == i and m == 'w']
+        if ws and all(v == 'SELECT' for v, _ in ws[-1]):
+            out.append(i)
+    return out
+
+
 def monitors(props, start_snap, start_dump, oplist, leaf, serial_cache):
     out = []
     sts = [r.status if r is not None else None for r in leaf['responses']]
@@ -236,8 +269,12 @@ def monitors(props, start_snap, start_dump, oplist, leaf, serial_cache):
                 for key in guarded_gen(op):
                     if key in seen:
                         j = seen[key]
-                        out.append(('c05:two-successes-same-generation:%s+%s' % tuple(sorted((oplist[j]['op'], op['op']))),
-                                    'requests %d and %d both succeeded carrying generation %s of %s' % (j, i, key[1], key[0])))
+                        noop = noop_trait_puts(oplist, leaf)
+                        if i in noop or j in noop:
+                            sig = 'c05:noop-traits-put-accepted-with-stale-generation'
+                        else:
+                            sig = 'c05:two-successes-same-generation:%s+%s' % tuple(sorted((oplist[j]['op'], op['op'])))
+                        out.append((sig, 'requests %d and %d both succeeded carrying generation %s of %s' % (j, i, key[1], key[0])))
                     seen[key] = i
             else:
                 if sts[i] == 409 and guarded_gen(op) and op.get('mv', 39) >= 23:
@@ -249,7 +286,8 @@ def monitors(props, start_snap, start_dump, oplist, leaf, serial_cache):
                 for key in consumer_gens(op):
                     if key in seen:
                         j = seen[key]
-                        out.append(('c06:two-successes-same-consumer-generation:%s' % ('null' if key[1] is None else 'int'),
+                        out.append(('c06:two-creators-both-succeed' if key[1] is None and key[0] not in start_dump['consumers']
+                                    else 'c06:two-successes-same-consumer-generation:%s' % ('null' if key[1] is None else 'int'),
                                     'requests %d and %d both succeeded carrying consumer_generation %s of %s' % (j, i, key[1], key[0])))
                     seen[key] = i
     if 'C07' in props or 'C05' in props or 'C06' in props:
@@ -265,13 +303,32 @@ def monitors(props, start_snap, start_dump, oplist, leaf, serial_cache):
                 match = True
                 break
         if not match:
+            # a PUT traits that changed nothing but was accepted with a stale generation?
+            noop = noop_trait_puts(oplist, leaf)
+            if noop:
+                succ2 = [i for i in succ if i not in noop]
+                for order in itertools.permutations(succ2):
+                    key = tuple(order)
+                    if key not in serial_cache:
+                        serial_cache[key] = serial_outcomes(start_snap, oplist, order)
+                    st2, d2 = serial_cache[key]
+                    if all(ok(x) for x in st2) and core(d2) == final:
+                        match = True
+                        break
+                if match:
+                    out.append(('c07:noop-traits-put-accepted-with-stale-generation',
+                                'statuses %s: serializable only without the no-op PUT traits request(s) %s' % (sts, noop)))
+        if not match:
             # classify
             d = leaf['dump']
+            pfx = 'c07:new-consumer-race:' if new_consumer_race(start_dump, oplist) else 'c07:'
             holders = {x[1] for x in d['allocs']}
             if holders - set(d['consumers']):
-                sig = 'c07:not-serializable:allocations-without-consumer'
+                sig = pfx + 'not-serializable:allocations-without-consumer'
             elif set(d['consumers']) - holders:
-                sig = 'c07:not-serializable:consumer-without-allocations'
+                sig = pfx + 'not-serializable:consumer-without-allocations'
+            elif pfx != 'c07:':
+                sig = pfx + 'not-serializable'
             else:
                 sig = 'c07:not-serializable:%s' % '+'.join(sorted(op['op'] for op in oplist))
             out.append((sig, 'statuses %s: no serial order of the successful requests %s reproduces the final state with all of them succeeding'
@@ -313,7 +370,8 @@ def race_case(args):
                 vio.append({'kind': 'correspondence', 'signature': 'driver-error', 'detail': mr['error']})
             else:
                 mtrace = [(a, b) for a, b in mr['trace']]
-                if mtrace != real_steps:
+                if len(mtrace) != len(real_steps) or any(
+                        a[0] != b[0] or a[1] not in b[1].split('|') for a, b in zip(mtrace, real_steps)):
                     out['trace_mismatch'] += 1
                     vio.append({'kind': 'correspondence', 'signature': 'txn-trace:%s' % '+'.join(op['op'] for op in oplist),
                                 'detail': 'real %s model %s' % (real_steps, mtrace)})
